@@ -785,8 +785,11 @@ class Channel:
                 error.warn()
         elif self._receiveclosed.is_set():
             # state transition "sendonly" --> "deleted"
-            # the remote channel is already in "deleted" state, nothing to do
-            pass
+            # the remote channel is already in "deleted" state, but its
+            # callback still waits for the end of the stream
+            if Message is not None and not self.gateway._channelfactory.finished:
+                with suppress(OSError, ValueError):
+                    self.gateway._send(Message.CHANNEL_CLOSE, self.id)
         else:
             # state transition "opened" --> "deleted"
             # check if we are in the middle of interpreter shutdown
@@ -865,8 +868,13 @@ class Channel:
             # threads warning: the channel might be closed under our feet,
             # but it's never damaging to send too many CHANNEL_CLOSE messages
             # however, if the other side triggered a close already, we
-            # do not send back a closed message.
-            if not self._receiveclosed.is_set():
+            # do not send back a closed message.  In "sendonly" state (the
+            # other side dropped its channel object but still has a callback
+            # registered) the close message is what fires its endmarker.
+            if not (
+                self._receiveclosed.is_set()
+                and self.gateway._channelfactory.finished
+            ):
                 put = self.gateway._send
                 if error is not None:
                     put(Message.CHANNEL_CLOSE_ERROR, self.id, dumps_internal(error))
